@@ -208,7 +208,7 @@ package gocvss31
 
 //@ func (CVSS31).EnvironmentalScore(cvss31)
 //@   requires[wf] (wf31 cvss31)
-//@   ensures[spec] (fp.eq result (tenth (envFrom31 (envInner31K cvss31) cvss31)))
+//@   ensures[spec] (fp.eq result (tenth (envFromZ31 (envZero31 cvss31) (envInner31K cvss31) cvss31)))
 //@   ensures[one_decimal_in_scale] (isTenthIn result 0 100)
 //@   ensures[rating_accepts] (>= (ratingClass result) 0)
 //@   ensures[no_allocation] (= allocs (old allocs))
